@@ -357,7 +357,7 @@ func TestC14(t *testing.T) {
 		}
 		h.Exhaustive("8 flushed request types x 3 hold positions x event sets (every order for the small sets)")
 	}
-	rapidCases(h, "schedules", env.PerShard(env.Pick(1200, 20000)), genFlushCase, func(c flushCase) *fail {
+	rapidCases(h, "schedules", env.PerShard(env.Pick(1200, 120000)), genFlushCase, func(c flushCase) *fail {
 		st := &flushStats{}
 		f := runFlushCase(c, st)
 		h.Case(evid.HashJSON(c), st.flushWhileInside, "schedules:"+c.Target)
